@@ -15,7 +15,12 @@ spec -> code : FrameMC.tla enumerates the catalogue of Frame.tla (one record per
                a size class per argument (6 elements, or just over 2^25 bytes for the cheap entry points:
                all arguments large, or one large and the others small); and DELIBERATE rejections - option
                values, value classes and size mismatches on which the callee is documented to raise, also
-               with large arguments (a rejected call is a stutter step on its arguments).
+               with large arguments (a rejected call is a stutter step on its arguments).  OPTION SPACE: the keyword
+               options of an entry point are independent axes (Frame.tla FrOptAxes: units x stomp x dtype, projection x
+               distort x find, delimiter x header x append, ...); besides the named single settings every option VECTOR
+               of a strength-2 covering design (at most two axes off their default; the full product up to three axes)
+               is run as option "ax:v1,v2,.." with every parameter in its base layout (the caller's own representation,
+               where nothing forces a copy) and with all of them byte-swapped and strided.
 code -> spec : every argument is snapshotted before and after the call (digest of its bytes, digest
                of the whole buffer it lives in, dtype incl. byte order, flags + strides + shape);
                the recorded invocations are judged by FrameTrace.tla: whatever the call returned
@@ -411,6 +416,65 @@ def bind_axes(name, ax, A, tmp):
             kw["file"] = os.path.join(tmp, "pairs.dat")
         rad = (lambda: _scalar(A["radius"])) if ax["radius"] == "scalar" else (lambda: A["radius"])
         return lambda: _htm(MATCH_DEPTH).match(A["ra1"], A["dec1"], A["ra2"], A["dec2"], rad(), **kw)
+    delims = {"csv": ",", "tab": "\t", "space": " "}
+    fam_path = os.path.join(tmp, "f.rec")
+    if name in ("sfile.write", "io.write", "recfile.write", "Recfile.write", "SFile.write"):
+        from esutil import sfile, recfile
+        kw = {"delim": delims[ax["delim"]]} if ax["delim"] in delims else {}
+        data = A["data"]
+        first = logical("table", "tbl", 1)
+        if name in ("sfile.write", "io.write"):
+            if on("header"):
+                kw["header"] = {"date": "2007-05-12", "n": 3}
+            wr = (lambda d, **k: esutil.io.write(fam_path, d, type="rec", **k)) if name == "io.write" else (lambda d, **k: sfile.write(d, fam_path, **k))
+
+            def f():
+                if on("append"):
+                    wr(first, **kw)
+                    return wr(data, append=True, **kw)
+                return wr(data, **kw)
+            return f
+        if name == "recfile.write":
+            def f():
+                if on("append"):
+                    recfile.write(fam_path, first, **kw)
+                    return recfile.write(fam_path, data, mode="r+", **kw)
+                return recfile.write(fam_path, data, **kw)
+            return f
+        if name == "Recfile.write":
+            kw.update(bracket_arrays=on("bracket"), padnull=on("padnull"), ignorenull=on("ignorenull"))
+
+            def f():
+                with recfile.Recfile(fam_path, mode="w", **kw) as r:
+                    r.write(data)
+            return f
+
+        def f():
+            if ax["mode"] == "rplus":
+                sfile.write(first, fam_path, **kw)
+            with sfile.SFile(fam_path, mode={"w": "w", "rplus": "r+"}[ax["mode"]], **kw) as sf:
+                sf.write(data)
+                if on("twice"):
+                    sf.write(data)
+        return f
+    if name == "stat.histogram2d":
+        kw = {"nx_ny": dict(nx=2, ny=3), "xbin_ybin": dict(xbin=1.0, ybin=1.0)}[ax["bins"]]
+        return lambda: stat.histogram2d(A["x"], A["y"], rev=on("rev"), more=on("more"), **kw)
+    if name == "numpy_util.extract_fields":
+        import esutil.numpy_util as nu
+        names = {"one": ["x"], "two": ["s", "id"], "sub_array_field": ["v", "n"]}[ax["names"]]
+        return lambda: nu.extract_fields(A["arr"], names, strict=on("strict"))
+    if name == "HTM.bincount":
+        kw = dict(getbins=on("getbins"))
+        if ax["scale"] == "scalar":
+            kw["scale"] = 2.0
+        return lambda: _htm(BINCOUNT_DEPTH).bincount(0.01, 1.0, 3, A["ra1"], A["dec1"], A["ra2"], A["dec2"], **kw)
+    if name == "Matcher.match":
+        kw = dict(maxmatch=int(ax["maxmatch"]))
+        if on("file"):
+            kw["file"] = os.path.join(tmp, "pairs.dat")
+        m = esutil.htm.Matcher(MATCH_DEPTH, np.array(ROLE_VALUES["lon"][0]), np.array(ROLE_VALUES["lat"][0]))
+        return lambda: m.match(A["ra"], A["dec"], A["radius"], **kw)
     raise MachineryError("no binding for the option axes of catalogue entry %r" % name)
 
 
@@ -914,7 +978,10 @@ def run(ctx):
                 "non-trivial always (%d of %d raised, the frame condition applies to them too); plus one parameter in each exotic element "
                 "kind (longdouble / uint64 > 2^63 / int64 > 2^53 / float16 / complex128 / object, values not exactly convertible to "
                 "float64); plus large arguments (> 2^25 bytes, all or one of them, non-native) for the cheap entry points, with ordinary "
-                "values and with the documented rejections (duplicate first array, missing field, closed file, empty range, size mismatch)"
+                "values and with the documented rejections (duplicate first array, missing field, closed file, empty range, size mismatch); "
+                "plus, for the entry points with several keyword options, every option vector of a strength-2 covering design over "
+                "their option axes (<= 2 axes off the default; full product up to 3 axes) in the base layout of all parameters and "
+                "in the swapped + strided one"
                 % (len(completed), sorted(B["NDims"]), "; every order/contiguity pair for two parameters" if B["Pairwise"] else "",
                    sorted(B["ValNDims"]),
                    "each class of one parameter in every order x contiguity and in every element kind, the same class in all parameters, every "
@@ -934,6 +1001,7 @@ def run(ctx):
         "value classes are offered to a role only where the callee accepts them: search radii, dz and scale factors are never NaN, infinite, negative or of extreme magnitude (a pair search over the whole mesh), a right-ascension difference handed to wrap_ra_diff is not of extreme magnitude (it is wrapped 360 degrees at a time and 1e300 never gets there), NaN/inf need a floating kind, negative values a signed one; int32 'extreme' data are all next to 2**31 rather than of both signs (a unit-bin histogram of the full int32 range would need 2**32 bins)",
         "exotic element kinds are offered to every parameter that takes all numeric kinds (the floating ones to float-only parameters); integers beyond 2^53 not to the role that excludes extreme magnitudes; they carry ordinary values only; object arrays are snapshotted by the type and repr of their elements",
         "large arguments (one element more than 2^25 bytes of the smallest element among them) only for entry points without a python loop over the elements, per-element root finding or pair search (Frame.tla FrBig; quick: FrBigQuick)",
+        "option axes (Frame.tla FrOptAxes) are declared for the entry points that have more than one keyword option affecting the array path; an option vector is run with ordinary values only",
         "which invocations are deliberate rejections is declared in the catalogue (FrExpectReject); the verdict does not depend on whether they raise - the statement does not say when a call must raise - the counts are reported in the notes",
         "while a catalogue call runs the address space is capped at 12 GiB and a 120 s alarm is armed: an absurd allocation ends as MemoryError in the callee (an accepted outcome), a call that never returns as a machinery error",
     ]
